@@ -138,6 +138,13 @@ def run(ctx):
     ctx.floor("C03.H", 3 * 3 + 3 * 3)
     canonical_min_rule(ctx, "C03.M")
     header_line_rule(ctx)
+    # the bijection is built from rev_comp and named through numeric_to_kmer: their codec rules are part of this check
+    from . import c02
+    d = dep(ctx, "C03", "C02")
+    tab = (ctx.prog.consts.get(c02.TABLE) or {}).get("bytes")
+    if tab is not None:
+        c02.decode_rules(d, tab)
+    c02.revcomp_rules(d)
 
 
 def maps_rules(ctx, P="C03"):
